@@ -37,9 +37,15 @@ PROP = {'title': 'optional / either / variant combinators satisfy their algebrai
                            'harness/C04_rich_move_only.cpp'],
                'libs': [],
                'flavour': 'asan'}],
- 'compile_probes': [{'name': 'variant::match(lvalue_variant,T&_continuations)', 'source': 'harness/C04_probe_lvalue_ref.cpp', 'flags': ['-DC04_PROBE_KIND=1']},
-                    {'name': 'optional::maybe(lvalue_optional,T&_continuation)', 'source': 'harness/C04_probe_lvalue_ref.cpp', 'flags': ['-DC04_PROBE_KIND=2']},
-                    {'name': 'either::match(lvalue_either,T&_continuations)', 'source': 'harness/C04_probe_lvalue_ref.cpp', 'flags': ['-DC04_PROBE_KIND=3']}],
+ 'compile_probes': [{'name': 'variant::match(lvalue_variant,T&_continuations)',
+                     'source': 'harness/C04_probe_lvalue_ref.cpp',
+                     'flags': ['-DC04_PROBE_KIND=1']},
+                    {'name': 'optional::maybe(lvalue_optional,T&_continuation)',
+                     'source': 'harness/C04_probe_lvalue_ref.cpp',
+                     'flags': ['-DC04_PROBE_KIND=2']},
+                    {'name': 'either::match(lvalue_either,T&_continuations)',
+                     'source': 'harness/C04_probe_lvalue_ref.cpp',
+                     'flags': ['-DC04_PROBE_KIND=3']}],
  'deadline': {'quick': 240, 'thorough': 1200},
  'rule': 'nested loops over explicit finite domains: optional<D> (4 values), either<E,D> (5), their nestings (5 / 7), variant<A,B,C> (7), '
          'value category of each argument (const&, &, &&), unary function tables (27 D->D, 64 D->optional<D>, 125 D->either<E,D>, 8 '
@@ -80,4 +86,15 @@ PROP = {'title': 'optional / either / variant combinators satisfy their algebrai
                  'payload uses by_cref there); either::sequence and to_container with lvalue sources rely on the fixes b3e0bc8 / c55e90e',
                  'result category: a mismatch of the declared result type is reported at run time (signature ...:result_type) instead of a '
                  'static_assert so that a library change is a verdict, not a broken build; for by-value results only the value is compared '
-                 '(no copy counts)']}
+                 '(no copy counts)',
+                 'demoted to information counters (info:<sig> in the evidence, never a verdict) because neither the property text nor the '
+                 'documentation nor the declared signature promises them: optional::alternative / optional::make_if / either::construct / '
+                 'either::from_optional calling the nullary function of the branch that is NOT selected (laziness is not documented; the '
+                 'selected function is still required to run exactly once and maybe/from/match/maybe_multi keep the full '
+                 'exactly-once/never check the property states); either::first_success: how often, and whether, functions are called (the '
+                 'documentation fixes the result only); <fn>:result_copied and optional::deref:result_copied: internal copies/moves of '
+                 'instrumented cells while a reference is returned (identity of the returned object is the contract); either::try_call: '
+                 'number of copies of the exception object between throw and to_exception (counter try_call:exception_object_copies)',
+                 'what is left in an rvalue (&&) source after a call is never inspected; for rvalue sources the result-category cases '
+                 'demand no identity with storage inside the source (except optional/either::to_exception, whose declared result T&& can '
+                 'only be the held value)']}
